@@ -25,6 +25,8 @@ DECIDED_R7 = ('Round 7: a pre-check of a byte position tolerates the white space
 DECIDED = DECIDED + ' ' + DECIDED_R7
 DECIDED_R8 = ("Round 8: the error renderer hands the optional fields of an error to None-tolerant operations only; a method call on the body ('' for HEAD) is under a truth test of it.")
 DECIDED = DECIDED + ' ' + DECIDED_R8
+DECIDED_R9 = ('Round 9: an iterator-class range body neither positions nor reads the file in `__iter__` (c); the 304 answer is not under a test of the request method (e).')
+DECIDED = DECIDED + ' ' + DECIDED_R9
 NOT_DECIDED = ('RFC 7233 arithmetic for every header string (integer semantics of the parser over all strings, e.g. multiple '
                'ranges, whitespace, huge numbers); equality of delivered bytes with the file slice at run time.')
 ASSUMPTIONS = ['file.read(n) returns at most n bytes', 'email.utils.formatdate emits whole seconds']
